@@ -196,6 +196,9 @@ C18_Write(r, c, ln, i) ==
       checks == FlattenSeq([j \in 1..Len(ps) |->
                   << <<~IsBad(ps[j]), "C18.malformed_packet", <<a, f.pkts[j][1], IF IsBad(ps[j]) THEN ps[j].why ELSE "">> >>,
                      <<IsBad(ps[j]) \/ ClientPacket(ps[j]), "C18.broker_only_type", <<a, f.pkts[j][1]>> >>,
+                     \* [MQTT-2.3.1-1]: a packet that carries an identifier carries a non-zero one
+                     <<IsBad(ps[j]) \/ "id" \notin DOMAIN ps[j] \/ (ps[j].t = "PUBLISH" /\ ps[j].qos = 0) \/ ps[j].id # 0,
+                       "C18.malformed_packet", <<a, f.pkts[j][1], "identifier 0">> >>,
                      <<(x.npk + j = 1) => (isConn(j) /\ ln.stim.op = "connect"), "C18.first_not_connect", <<a, f.pkts[j][1], ln.stim.op>> >>,
                      <<(x.npk + j > 1 /\ isConn(j)) => secondOK, "C18.second_connect", <<a, ln.stim.op>> >>,
                      <<isDisc(j) => (ln.stim.op = "disconnect" /\ closeLose), "C18.disconnect_outside_disconnect", <<a, ln.stim.op>> >>,
